@@ -3,6 +3,7 @@
 // and the context still parses and verifies a known-good signature afterwards.
 #include "seeds.hpp"
 #include "mutate.hpp"
+#include "sigmut.hpp"
 extern "C" {
 #include <ksi/net.h>
 #include <ksi/publicationsfile.h>
@@ -175,6 +176,10 @@ static int targetForKind(int kind, Dec &d) {
 }
 
 void harness_case(Dec &d, Case &c) {
+    // a quarter of the cases (first choice byte >= 0xc0): a reference-built signature with 0..3 semantic mutations (unsupported algorithms, level overflows, broken links ...) through the signature target and all follow-ups
+    if (d.left() >= 16 && d.p[d.i] >= 0xc0) { d.byte(); bool dbg2 = d.flag(); Chooser ch{[&](uint32_t n) { return d.pick(n); }, [&]() { return d.byte(); }}; BuildOpts o; o.maxChains = 4; Sig sg = buildConsistent(ch, o); unsigned nm = d.pick(4); std::string how;
+        for (unsigned i = 0; i < nm; i++) for (int tries = 0; tries < 6; tries++) { Sig bak = sg; std::string note; int k = (int)(d.raw(2) % SM_COUNT); if (applySigMut(sg, k, d, note)) { how += std::string(kSigMutName[k]) + " "; c.cls(std::string("sigmut:") + kSigMutName[k]); break; } sg = bak; }
+        Bytes in = sg.enc(); if (in.empty()) { c.skip("model signature does not encode"); return; } c.desc = std::string("signature model ") + how; c.nontrivial = true; c.cls("mode:model-signature"); runTarget(T_SIG, in, c, dbg2); return; }
     unsigned mode = d.pick(4); bool dbg = d.flag();
     if (mode == 0) { // raw bytes straight into a target (the libFuzzer path)
         int target = d.pick(T_COUNT); Bytes in = d.rest(); c.desc = std::string(kTargetName[target]) + " raw len=" + num((long long)in.size()); runTarget(target, in, c, dbg); c.cls("mode:raw"); return;
